@@ -18,6 +18,7 @@ from .. import gen, tagged
 from ..ref import model as M
 from ..ref import binary as B
 from ..ref import container as RC
+from ..ref import jsonenc as J
 from ..runner import Check, Violation, guard, outcome, HarnessError
 
 MARK = b"\x17" * 16
@@ -54,6 +55,7 @@ POOL = [
     ({"type": "record", "name": "Dec", "fields": [{"name": "d", "type": {"type": "bytes", "logicalType": "decimal", "precision": 8}}]}, [{"d": __import__("decimal").Decimal("1234")}, {"d": __import__("decimal").Decimal("-7")}], {"d": "x"}),
 ]
 
+JREAD_FIXED = {t.strip() for t in ['{}', '{"a": 1}', '{"a": "s"}', '"A"', '{}\n{}', '{"e": "A"}', '{"legs": 4}', '{"xs": [5], "m": {}}', '{"m": {"q": "r"}}', '{"item": {"sku": "z"}}', '{"xss": [[7]]}\n{}\n{}']}
 _ADDR = re.compile(r"0x[0-9a-fA-F]+")
 _TMP = re.compile(r"/tmp/[\w./-]+")
 
@@ -85,15 +87,31 @@ def run_call(call, slots):
     try:
         if op == "parse":
             before = copy.deepcopy(call["schema"])
-            res = fastavro.parse_schema(call["schema"])
+            kw = dict(call.get("opts") or {})
+            if "nsd" in call:
+                # caller-supplied named-schema dictionary shared by several parse calls of the history
+                kw["named_schemas"] = slots.setdefault(("nsd", call["nsd"]), {})
+            res = fastavro.parse_schema(call["schema"], **kw)
             slots[call["slot"]] = res
             mut = None if tagged.enc(before) == tagged.enc(call["schema"]) else "schema"
+            out = {"parsed": strip_parsed(res)}
+            if "nsd" in call:
+                out["named_schemas_keys"] = sorted(kw["named_schemas"])
+            return ("ok", tagged.enc(out)), mut
+        if op == "reparse":
+            obj = slots[call["schema"]["slot"]]
+            before = tagged.dumps(obj)
+            res = fastavro.parse_schema(obj)
+            mut = None if tagged.dumps(obj) == before else "parsed-schema-object"
             return ("ok", tagged.enc(strip_parsed(res))), mut
         if op == "fingerprint":
             return ("ok", fastavro.schema.fingerprint(call["text"], call["algo"])), None
         if op == "cread":
-            rd = fastavro.reader(io.BytesIO(call["data"]), reader_schema=call.get("reader"))
+            rbefore = copy.deepcopy(call.get("reader"))
+            rd = fastavro.reader(io.BytesIO(call["data"]), reader_schema=call.get("reader"), **(call.get("opts") or {}))
             recs = list(rd)
+            if tagged.enc(rbefore) != tagged.enc(call.get("reader")):
+                return ("ok", "<reader schema modified>"), "reader-schema"
             return ("ok", tagged.enc({"records": recs, "codec": rd.codec, "schema": strip_parsed(rd.writer_schema)})), None
         if op == "load":
             td = tempfile.mkdtemp(prefix="vc17")
@@ -106,25 +124,26 @@ def run_call(call, slots):
             finally:
                 shutil.rmtree(td, ignore_errors=True)
         schema, schema_before = schema_arg()
-        args_before = {k: copy.deepcopy(call[k]) for k in ("datum", "records") if k in call}
+        args_before = {k: copy.deepcopy(call[k]) for k in ("datum", "records", "reader") if call.get(k) is not None}
+        opts = dict(call.get("opts") or {})
         if op == "swrite":
             fo = io.BytesIO()
-            fastavro.schemaless_writer(fo, schema, call["datum"])
+            fastavro.schemaless_writer(fo, schema, call["datum"], **opts)
             res = fo.getvalue()
         elif op == "sread":
-            res = fastavro.schemaless_reader(io.BytesIO(call["data"]), schema, call.get("reader"))
+            res = fastavro.schemaless_reader(io.BytesIO(call["data"]), schema, call.get("reader"), **opts)
         elif op == "cwrite":
             fo = io.BytesIO()
-            fastavro.writer(fo, schema, call["records"], codec=call.get("codec", "null"), sync_marker=MARK)
+            fastavro.writer(fo, schema, call["records"], codec=call.get("codec", "null"), sync_marker=MARK, **opts)
             res = fo.getvalue()
         elif op == "jwrite":
             so = io.StringIO()
-            fastavro.json_writer(so, schema, call["records"])
+            fastavro.json_writer(so, schema, call["records"], **opts)
             res = so.getvalue()
         elif op == "jread":
             res = list(fastavro.json_reader(io.StringIO(call["text"]), schema))
         elif op == "validate":
-            res = fastavro.validate(call["datum"], schema, raise_errors=call.get("raise", False))
+            res = fastavro.validate(call["datum"], schema, raise_errors=call.get("raise", False), **opts)
         elif op == "canon":
             res = fastavro.schema.to_parsing_canonical_form(schema)
         elif op == "generate":
@@ -160,6 +179,11 @@ def run_call(call, slots):
                         mut = "parsed-schema-object"
                 elif tagged.enc(schema_before) != tagged.enc(s):
                     mut = "schema"
+            if "args_before" in dir():
+                # a call that fails midway must not leave its data arguments modified either
+                for k, v in args_before.items():
+                    if tagged.enc(v) != tagged.enc(call[k]):
+                        mut = k + "-after-failure"
         except Exception:
             pass
         return ("exc", type(e).__name__, scrub(e)), mut
@@ -262,7 +286,7 @@ class C17(Check):
         "afterwards. Non-trivial = history with a name clash, a failing call followed by a success, or a re-used parsed object."
     )
     assumptions = ["a fork of a pristine post-import process stands for a fresh interpreter (a leak that exists only at import time is invisible)", "random.seed is set identically before generate_many; sync markers are explicit"]
-    required_labels = ["name-clash", "failure-then-success", "reused-parsed-object", "op:parse", "op:swrite", "op:sread", "op:cwrite", "op:cread", "op:jwrite", "op:jread", "op:validate", "op:canon", "op:generate", "op:load", "op:fingerprint"]
+    required_labels = ["name-clash", "failure-then-success", "reused-parsed-object", "op:parse", "op:swrite", "op:sread", "op:cwrite", "op:cread", "op:jwrite", "op:jread", "op:validate", "op:canon", "op:generate", "op:load", "op:fingerprint", "op:reparse", "with-options", "with-reader-schema", "shared-named-schemas-dict", "json-text-from-schema"]
     quick = (350, 1)
     thorough = (2500, 16)
 
@@ -306,7 +330,9 @@ class C17(Check):
             for _ in range(n):
                 js, good, bad, node, table = self._pick_schema(d)
                 op = d.weighted([("swrite", 5), ("parse", 5), ("validate", 4), ("sread", 4), ("cwrite", 3), ("cread", 3), ("jwrite", 3), ("jread", 2), ("canon", 3), ("generate", 2), ("fingerprint", 1), ("load", 1)])
-                use_slot = slots and d.p(0.45) and op not in ("parse", "fingerprint", "load", "cread")
+                if op == "parse" and slots and d.p(0.2):
+                    op = "reparse"
+                use_slot = slots and (op == "reparse" or d.p(0.45)) and op not in ("parse", "fingerprint", "load", "cread")
                 if use_slot:
                     k = d.choice(sorted(slots))
                     js, good, bad, node, table = slots[k]
@@ -320,30 +346,55 @@ class C17(Check):
                         enc = B.encode(node, table, d.choice(good))[0]
                     except Exception:
                         enc = None
+                ropts = {}
+                if d.p(0.35):
+                    ropts = d.choice([{"return_record_name": True}, {"return_named_type": True}, {"return_record_name": True, "return_record_name_override": True},
+                                      {"return_named_type": True, "return_named_type_override": True}, {"handle_unicode_errors": "replace"}])
+                wopts = {}
+                if d.p(0.35):
+                    wopts = d.choice([{"strict": True}, {"strict_allow_default": True}, {"disable_tuple_notation": True}, {"strict": True, "disable_tuple_notation": True}])
+                reader = None
+                if op in ("sread", "cread") and d.p(0.4):
+                    # a reader schema: another definition of the same names (pool neighbours) or the same schema as a copy
+                    reader = copy.deepcopy(js) if d.p(0.3) else copy.deepcopy(POOL[d.i(len(POOL))][0])
                 if op == "parse":
                     k = d.rng(0, 2)
                     slots[k] = (js, good, bad, node, table)
-                    calls.append({"op": "parse", "schema": js, "slot": k})
+                    c = {"op": "parse", "schema": js, "slot": k}
+                    if d.p(0.3):
+                        c["nsd"] = d.rng(0, 1)
+                    if d.p(0.15):
+                        c["opts"] = {"expand": True}
+                    calls.append(c)
+                elif op == "reparse":
+                    calls.append({"op": "reparse", "schema": schema})
                 elif op == "swrite":
-                    calls.append({"op": "swrite", "schema": schema, "datum": datum})
+                    calls.append({"op": "swrite", "schema": schema, "datum": datum, "opts": wopts})
                 elif op == "validate":
-                    calls.append({"op": "validate", "schema": schema, "datum": datum, "raise": d.p(0.4)})
+                    calls.append({"op": "validate", "schema": schema, "datum": datum, "raise": d.p(0.4), "opts": d.choice([{}, {}, {"strict": True}, {"disable_tuple_notation": True}])})
                 elif op == "sread":
                     data = enc if enc is not None else b"\x02"
                     if d.p(0.2):
                         data = data[: max(0, len(data) - 1)]
-                    calls.append({"op": "sread", "schema": schema, "data": data, "reader": None})
+                    calls.append({"op": "sread", "schema": schema, "data": data, "reader": reader, "opts": ropts})
                 elif op == "cwrite":
                     recs = [d.choice(good) for _ in range(d.rng(0, 3))] + ([bad] if d.p(0.2) else [])
-                    calls.append({"op": "cwrite", "schema": schema, "records": recs, "codec": d.choice(["null", "deflate"])})
+                    calls.append({"op": "cwrite", "schema": schema, "records": recs, "codec": d.choice(["null", "deflate"]), "opts": wopts})
                 elif op == "cread":
                     if enc is None:
                         data = b"Obj\x01garbage"
                     else:
                         data = RC.write([([("avro.schema", json.dumps(js).encode())], False)], MARK, [(1, enc)], "null")[0]
-                    calls.append({"op": "cread", "data": data, "reader": None})
+                    calls.append({"op": "cread", "data": data, "reader": reader, "opts": ropts})
                 elif op == "jwrite":
-                    calls.append({"op": "jwrite", "schema": schema, "records": [d.choice(good) for _ in range(d.rng(1, 2))]})
+                    calls.append({"op": "jwrite", "schema": schema, "records": [d.choice(good) for _ in range(d.rng(1, 2))], "opts": d.choice([{}, {}, {"write_union_type": False}, {"validator": True}])})
+                elif op == "jread" and node is not None and d.p(0.6):
+                    # a document that fits the schema: the specification's JSON encoding of a conforming datum
+                    try:
+                        docs = [json.dumps(J.encode(node, table, d.choice(good), B.Picker(fn=B.first_conforming))) for _ in range(d.rng(1, 2))]
+                    except Exception:
+                        docs = ["{}"]
+                    calls.append({"op": "jread", "schema": schema, "text": "\n".join(docs)})
                 elif op == "jread":
                     calls.append({"op": "jread", "schema": schema, "text": d.choice(['{}', '{"a": 1}', '{"a": "s"}', '"A"', '{}\n{}', '{"e": "A"}', '{"legs": 4}', '{"xs": [5], "m": {}}', '{"m": {"q": "r"}}', '{"item": {"sku": "z"}}', '{"xss": [[7]]}\n{}\n{}'])})
                 elif op == "canon":
@@ -377,8 +428,17 @@ class C17(Check):
         names_seen = {}
         failed = False
         last_parse = {}
+        nsd_hist = {}
         for i, call in enumerate(calls):
             labels.add("op:" + call["op"])
+            if call.get("opts"):
+                labels.add("with-options")
+            if call.get("reader") is not None:
+                labels.add("with-reader-schema")
+            if "nsd" in call:
+                labels.add("shared-named-schemas-dict")
+            if call["op"] == "jread" and call["text"].strip() not in JREAD_FIXED:
+                labels.add("json-text-from-schema")
             s = call.get("schema")
             uses_slot = isinstance(s, dict) and set(s) == {"slot"}
             if uses_slot:
@@ -398,17 +458,27 @@ class C17(Check):
             # fresh interpreter: re-create the parsed object the call uses, then the call itself
             chain = []
             if uses_slot:
-                chain.append(last_parse[s["slot"]])
+                lp = last_parse[s["slot"]]
+                chain.extend(lp.get("_pre", []))
+                chain.append({k: v for k, v in lp.items() if k != "_pre"})
+            elif "nsd" in call:
+                # the caller's dictionary is an argument: its contents come from the earlier parse calls that received it
+                chain.extend(copy.deepcopy(nsd_hist.get(call["nsd"], [])))
             chain.append(call)
             fresh = server.call(copy.deepcopy(chain))
             if isinstance(fresh, tuple) and fresh and fresh[0] == "harness":
                 raise HarnessError(f"fork server: {fresh[1]}")
             main, mutated = run_call(call, slots)
             if call["op"] == "parse" and main[0] == "ok":
-                last_parse[call["slot"]] = copy.deepcopy({"op": "parse", "schema": call["schema"], "slot": call["slot"]})
+                lp = copy.deepcopy({k: v for k, v in call.items()})
+                if "nsd" in call:
+                    lp["_pre"] = copy.deepcopy(nsd_hist.get(call["nsd"], []))
+                last_parse[call["slot"]] = lp
             elif call["op"] == "parse":
                 slots.pop(call["slot"], None)
                 last_parse.pop(call["slot"], None)
+            if call["op"] == "parse" and "nsd" in call:
+                nsd_hist.setdefault(call["nsd"], []).append(copy.deepcopy(call))
             if main[0] == "ok" and failed:
                 labels.add("failure-then-success")
             if main[0] == "exc":
